@@ -372,12 +372,12 @@ def main(run, shard=(0, 1)) -> None:
     explored: Dict[str, int] = {}
     try:
         # ---- synthesised inputs (the vitamin worlds are numbered apart so that the other layouts keep their worlds)
-        n_worlds = (20 if thorough else 3) * len(layouts)
+        n_worlds = (15 if thorough else 3) * len(layouts)
         plan = [(wi, layouts[wi % len(layouts)], wi // len(layouts)) for wi in range(n_worlds)]
-        plan += [(VITAMIN_WORLD_BASE + j, 'vitamin', j) for j in range(20 if thorough else 3)]
+        plan += [(VITAMIN_WORLD_BASE + j, 'vitamin', j) for j in range(15 if thorough else 3)]
         all_layouts = list(G.LAYOUTS)
         plan += [(DUPS_WORLD_BASE + j, all_layouts[j % len(all_layouts)], j // len(all_layouts))
-                 for j in range(len(all_layouts) * (5 if thorough else 1))]
+                 for j in range(len(all_layouts) * (4 if thorough else 1))]
         for wi, layout, variant in plan:
             W = None
             inp = None
